@@ -315,8 +315,14 @@ namespace plan
           top.nums.push_back({fo->local, a});
       }
       const BodyItem *f = fo.get();
-      Path T = {f->local, p_interval(m.preds[f->pred]) ? "start" : "at"};
+      // one time in three (intervals): the END is what the disjunction constrains, loosely enough for a dont_end_yet
+      // delay to fit in the first disjunct: `end >= k; { end <= k + 3; .. } or { end >= k + 6; }`
+      const bool on_end = p_interval(m.preds[f->pred]) && modn(op.arg(3) >> 5, 3) == 0;
+      Path T = {f->local, on_end ? "end" : (p_interval(m.preds[f->pred]) ? "start" : "at")};
       mpq_class k(modn(op.arg(1), 5)), d(modn(op.arg(2), 3) + 1);
+      const mpq_class slack(on_end ? 3 : 0);
+      if (on_end)
+        d += 5;
       auto rel = [&](int r, const mpq_class &c)
       {
         auto b = std::make_shared<B>();
@@ -332,7 +338,7 @@ namespace plan
       std::vector<std::shared_ptr<BodyItem>> b1, b2;
       auto i1 = std::make_shared<BodyItem>();
       i1->k = BodyItem::ASSERT;
-      i1->b = rel(LEQ, k);
+      i1->b = rel(LEQ, k + slack);
       b1.push_back(i1);
       std::string t1 = " " + btext(i1->b) + ";";
       std::vector<int> gp, tgp;
@@ -361,7 +367,7 @@ namespace plan
           later->k = B::REL;
           later->rel = GEQ;
           later->l.t.push_back({mpq_class(1), Path{nm, p_interval(m.preds[gi]) ? "start" : "at"}});
-          later->r.k = k + 1 + modn(op.arg(3) >> 3, 2);
+          later->r.k = k + (on_end ? 5 : 1) + modn(op.arg(3) >> 3, 2);
           auto il = std::make_shared<BodyItem>();
           il->k = BodyItem::ASSERT;
           il->b = later;
@@ -455,7 +461,7 @@ namespace plan
         d += "}\n";
         continue;
       }
-      d += "class " + c.name + (c.super >= 0 ? " : " + m.classes[c.super].name : "") + " {\n";
+      d += "class " + c.name + (c.super >= 0 ? " : " + m.classes[c.super].name + (c.super2 >= 0 ? ", " + m.classes[c.super2].name : "") : (c.super2 >= 0 ? " : " + m.classes[c.super2].name : "")) + " {\n";
       for (auto &f : c.rfields)
         d += "  real " + f + ";\n";
       if (c.ofield_class >= 0)
